@@ -25,7 +25,11 @@ func NewMemoryCache(size int) (*MemoryCache, error) {
 	}
 	backend, err := builder.WithVariableTTL().
 		Cost(func(key string, value *cacheEntry) uint32 {
-			return uint32(len(key) + len(value.v))
+			// Entries are recycled. Don't read value.v without its lock.
+			value.l.RLock()
+			l := len(value.v)
+			value.l.RUnlock()
+			return uint32(len(key) + l)
 		}).
 		DeletionListener(func(key string, value *cacheEntry, cause otter.DeletionCause) {
 			releaseEntry(value)
